@@ -6878,7 +6878,7 @@ class WBEMConnection:  # pylint: disable=too-many-instance-attributes
         # the ContinueOnError or ReturnQueryResultClass
         assert self._use_query_pull_operations is False
 
-        if ReturnQueryResultClass is not None:
+        if ReturnQueryResultClass:
             raise ValueError('ExecQuery does not support'
                              ' ReturnQueryResultClass.')
 
